@@ -36,7 +36,7 @@ SHARD_TIMEOUT = {"quick": 900, "thorough": 3000}
 
 def bounds(tier):
     return {
-        "history_depth": 3 if tier == "quick" else 4,
+        "history_depth": "3" if tier == "quick" else "3 for all palettes and initial lists; 4 from the three 3-atom initial lists for one seed-selected palette",
         "max_atoms": MAX_N,
         "initial_lists": len(INITS),
         "palettes": 1 if tier == "quick" else len(PALETTES),
@@ -635,7 +635,14 @@ def shards(tier, seed):
     for init in INITS:
         for pal in pals:
             for r in range(NRES):
-                out.append({"kind": "history", "init": init, "pal": list(pal), "res": r})
+                out.append({"kind": "history", "init": init, "pal": list(pal), "res": r, "depth": 3})
+    if tier == "thorough":
+        # depth 4 from the 3-atom initial lists for one seed-selected palette (the full depth-4
+        # product over all palettes and initial lists is ~10^8 transitions)
+        pal4 = PALETTES[seed % len(PALETTES)]
+        for init in ("i_empty3", "i_chain3", "i_tri3"):
+            for r in range(NRES):
+                out.append({"kind": "history", "init": init, "pal": list(pal4), "res": r, "depth": 4})
     for pal in pals:
         if tier == "quick":
             specs = [(n, k) for n in range(0, 5) for k in (0, 1, 2)] + [(2, 3)]
@@ -741,7 +748,7 @@ def op_class(op, n):
 
 def run_history(shard, ctx):
     init, pal, res = shard["init"], tuple(shard["pal"]), shard["res"]
-    depth = 3 if ctx.tier == "quick" else 4
+    depth = shard.get("depth", 3)
     n0, rows0 = INITS[init]
     rows0 = [list(r) for r in _rows(rows0, pal)]
     m0 = Model.construct(n0, rows0)
